@@ -347,7 +347,7 @@ func c15Servers(c *Ctx) {
 		}
 	}
 	for _, L := range genLayouts {
-		if L.name == "gen_alt" || L.name == "gen_irreg" || L.name == "gen_one" || L.name == "gen_192" {
+		if L.name == "gen_alt" || L.name == "gen_irreg" || L.name == "gen_one" || L.name == "gen_192" || L.name == "gen_gap" {
 			must(genAsset(vod, L))
 		}
 	}
